@@ -96,9 +96,37 @@ VIEWS = {
     "weighted": lambda eng, p, h: h.fields["_weighted"],
     "KLEN": lambda eng, p, h, k: T.sv_int(TH.tlen(nd(k.t))),
     "ID": lambda eng, p, h, k: T.sv_int(h.fields["_edge_list"].val[k.t]),
+    # wsum(h, t, L): total weight of the records of the listing L whose node set is t; osum(h, t, S): the same over the layers in S
+    "wsum": lambda eng, p, h, t, L: T.sv_real(WSUM(h.fields["_edge_list"].val, h.fields["_weights"].val, t.t, L.t)),
+    "osum": lambda eng, p, h, t, S: T.sv_real(OSUM(h.fields["_edge_list"].dom, h.fields["_edge_list"].val, h.fields["_weights"].val, t.t, S.t)),
 }
 
 LAYOUT = Layout(CLS, FIELDS, aliases={"Key": "Pair[Tup,Layer]"}, views=VIEWS, multi={"wf": wf, "view_eq": view_eq})
+
+
+# ---- finite sums over the records (specification functions defined by their fold axioms; assumed as definitions)
+BK = T.Bag(MK)
+SL = T.Set(T.LAYER)
+ELV, WV = z3.ArraySort(MK.sort(), T.I), z3.ArraySort(T.I, T.R)
+ELD = z3.ArraySort(MK.sort(), T.B)
+WSUM = z3.Function("wsum", ELV, WV, T.TupS, BK.sort(), T.R)          # sum of the weights of the listed records whose node set is t
+OSUM = z3.Function("osum", ELD, ELV, WV, T.TupS, SL.sort(), T.R)     # sum over the layers l in S of the weight of (t, l) if stored
+_el, _w, _eld = z3.Const("_el", ELV), z3.Const("_w", WV), z3.Const("_eld", ELD)
+_t, _b, _x, _v = z3.Const("_t", T.TupS), z3.Const("_bk", BK.sort()), z3.Const("_xk", MK.sort()), z3.Int("_vk")
+_S, _l = z3.Const("_Sl", SL.sort()), z3.Const("_ll", T.LayerS)
+TH.EXTRA.update({
+    "wsum_empty (definition)": z3.ForAll([_el, _w, _t], WSUM(_el, _w, _t, z3.K(MK.sort(), z3.IntVal(0))) == 0,
+                                         patterns=[WSUM(_el, _w, _t, z3.K(MK.sort(), z3.IntVal(0)))]),
+    "wsum_step (definition)": z3.ForAll([_el, _w, _t, _b, _x, _v], z3.Implies(_v == _b[_x] + 1,
+                                        WSUM(_el, _w, _t, z3.Store(_b, _x, _v)) == WSUM(_el, _w, _t, _b) + z3.If(MK.fst(_x) == _t, _w[_el[_x]], 0)),
+                                        patterns=[WSUM(_el, _w, _t, z3.Store(_b, _x, _v))]),
+    "osum_empty (definition)": z3.ForAll([_eld, _el, _w, _t], OSUM(_eld, _el, _w, _t, z3.K(T.LayerS, z3.BoolVal(False))) == 0,
+                                         patterns=[OSUM(_eld, _el, _w, _t, z3.K(T.LayerS, z3.BoolVal(False)))]),
+    "osum_step (definition)": z3.ForAll([_eld, _el, _w, _t, _S, _l], z3.Implies(z3.Not(_S[_l]),
+                                        OSUM(_eld, _el, _w, _t, z3.Store(_S, _l, True)) == OSUM(_eld, _el, _w, _t, _S) +
+                                        z3.If(_eld[MK.mk(_t, _l)], _w[_el[MK.mk(_t, _l)]], 0)),
+                                        patterns=[OSUM(_eld, _el, _w, _t, z3.Store(_S, _l, True))]),
+})
 
 
 def C(name, **kw):
@@ -202,6 +230,7 @@ CONTRACTS = [
           **OTHER_EDGES,
           "M_given": f"implies(metadata is not None, M(self, {KEY}) == metadata)",
           "layers": "all((l in LAYERS(self)) == (l in LAYERS(old(self)) or l == layer) for l in Layer)",
+          "ids": "all(ID(self, k) == ID(old(self), k) for k in E(old(self)))",
           **NODE_MD_KEPT, **SAME_WEIGHTED,
       },
       invariants={0: {"inv": _add_nodes_inv}, 1: {"inv": _append_inv}}),
@@ -263,4 +292,46 @@ CONTRACTS = [
                       "NM_kept": "all(NM(self, n) == NM(old(self), n) for n in V(old(self)))",
                       "weighted": "weighted(self) == weighted(old(self))", "HM": "HM(self) == HM(old(self))"}},
       properties=["C04", "C19"]),
+    Contract(f"{CLS}.remove_node@keep", FILE, [CLS, "remove_node"], self_cls=CLS, properties=["C04", "C19"],
+      params={"node": "Node", "keep_edges": "Bool"}, fixed={"keep_edges": True},
+      requires={"wf": "wf(self)"},
+      raises={"ValueError": "node not in V(self)"},
+      modifies=["_adj", "_node_metadata", "_edge_list", "_reverse_edge_list", "_weights", "_edge_metadata", "_next_edge_id", "_existing_layers"],
+      ensures={"wf": "wf(self)",
+               "V": "all((n in V(self)) == (n in V(old(self)) and n != node) for n in Node)",
+               "E": "all((k in E(self)) == (node not in fst(k) and (k in E(old(self)) or (node not in fst(k) and strict(fst(k)) and len(fst(k)) >= 1 and pair(with_node(fst(k), node), snd(k)) in E(old(self))))) for k in Key)",
+               "W": "implies(weighted(self), all(W(self, k) == (W(old(self), k) if k in E(old(self)) else 0) + (W(old(self), pair(with_node(fst(k), node), snd(k))) if (node not in fst(k) and strict(fst(k)) and len(fst(k)) >= 1 and pair(with_node(fst(k), node), snd(k)) in E(old(self))) else 0) for k in E(self)))",
+               "NM_kept": "all(NM(self, n) == NM(old(self), n) for n in V(self))",
+               "weighted": "weighted(self) == weighted(old(self))"},
+      invariants={0: {
+          "wf": "wf(self)", "V": "V(self) == V(old(self))",
+          "E": "all((k in E(self)) == ((k in E(old(self)) and not (node in fst(k) and count(_done0, ID(old(self), k)) >= 1)) or (node not in fst(k) and strict(fst(k)) and len(fst(k)) >= 1 and pair(with_node(fst(k), node), snd(k)) in E(old(self)) and count(_done0, ID(old(self), pair(with_node(fst(k), node), snd(k)))) >= 1)) for k in Key)",
+          "ids": "all(implies(k in E(self), ID(self, k) == ID(old(self), k)) for k in E(old(self)))",
+          "W": "implies(weighted(self), all(W(self, k) == (W(old(self), k) if (k in E(old(self)) and not (node in fst(k) and count(_done0, ID(old(self), k)) >= 1)) else 0) + (W(old(self), pair(with_node(fst(k), node), snd(k))) if (node not in fst(k) and strict(fst(k)) and len(fst(k)) >= 1 and pair(with_node(fst(k), node), snd(k)) in E(old(self)) and count(_done0, ID(old(self), pair(with_node(fst(k), node), snd(k)))) >= 1) else 0) for k in E(self)))",
+          "NM_kept": "all(NM(self, n) == NM(old(self), n) for n in V(old(self)))",
+          "weighted": "weighted(self) == weighted(old(self))"}}),
+    # ------------------------------------------------------------------ aggregation across layers
+    C("aggregated_hypergraph", params={}, result="Obj[Hypergraph]", pure=True,
+      requires={"wf": "wf(self)"},
+      ensures={"wf": "wf(result)", "weighted": "weighted(result) == weighted(self)",
+               "V": "V(result) == V(self)",
+               # exactly the distinct node sets of all layers ...
+               "E": "all((t in E(result)) == any(k in E(self) and fst(k) == t for k in Key) for t in Tuple)",
+               # ... each weighing the sum of its per-layer weights (1 if unweighted: wf(result))
+               "W": "implies(weighted(self), all(wsum(self, t, listing(E(self))) == (W(result, t) if t in E(result) else 0) for t in Tuple))",
+               "NM": "all(NM(result, n) == NM(self, n) for n in V(self))"},
+      invariants={
+          0: {"wf": "wf(h)", "weighted": "weighted(h) == weighted(self)",
+              "V": "all((n in V(h)) == (count(_done0, n) >= 1) for n in Node)", "E": "all(t not in E(h) for t in Tuple)",
+              "NM": "all(NM(h, n) == NM(self, n) for n in V(h))"},
+          1: {"wf": "wf(h)", "weighted": "weighted(h) == weighted(self)", "V": "V(h) == V(self)",
+              "E": "all((t in E(h)) == any(count(_done1, k) >= 1 and fst(k) == t for k in Key) for t in Tuple)",
+              "W": "implies(weighted(self), all(wsum(self, t, _done1) == (W(h, t) if t in E(h) else 0) for t in Tuple))",
+              "NM": "all(NM(h, n) == NM(self, n) for n in V(self))"}}),
+    Contract("edge_overlap", "hypergraphx/measures/multiplex/overlap.py", ["edge_overlap"], properties=["C04"],
+      params={"h": "Obj[MultiplexHypergraph]", "edge": "NodeSeq"}, result="Real", pure=True, locals={"overlap": "Real"},
+      requires={"wf": "wf(h)", "distinct": "distinct(edge)"},
+      # the overlap of a hyperedge is the sum of its weights over the layers in which it is present
+      ensures={"result": "result == osum(h, canon(edge), LAYERS(h))"},
+      invariants={0: {"sum": "overlap == osum(h, canon(old(edge)), _done0)"}}),
 ]
